@@ -464,6 +464,11 @@ func c11GenRec(t *rapid.T, p, npop int) (c10SeedRec, c10PodSpec) {
 	r.Phase = rapid.SampledFrom([]string{"", "Bind", "Unbind", "Unbind", "Unbind", "Unbind", "Binding", "Binding", "Detaching", "Detaching", "Deleting"}).Draw(t, "phase")
 	r.Pod = rapid.SampledFrom([]string{"absent", "absent", "absent", "alive", "exited", "terminating"}).Draw(t, "pod")
 	r.UIDMatch = rapid.Bool().Draw(t, "uidmatch")
+	if (r.Phase == "Detaching" || r.Phase == "Deleting") && (r.Pod == "alive" || r.Pod == "terminating") {
+		// reachable states only: a record is moved to Detaching/Deleting when its pod instance has
+		// left; a pod that exists under the name is then a later incarnation
+		r.UIDMatch = false
+	}
 	na := rapid.IntRange(1, 3).Draw(t, "nallocs")
 	ps := c10PodSpec{}
 	var ttls []time.Duration
